@@ -29,11 +29,15 @@ MUTANTS = [
     ("exact_dedup_keeps_duplicates", "C17", "dedup_exact_sorted", "src/core/delaunay_triangulation.rs",
      "            record_duplicate_detection_metrics(false, 0, true);\n            continue;\n        }",
      "            record_duplicate_detection_metrics(false, 0, true);\n        }"),
-    ("wrap_clamp_removed", "C16", "wrap_coord_lattice_1d", "src/topology/spaces/toroidal.rs",
-     "        let wrapped = if wrapped >= period { 0.0 } else { wrapped };\n        <T as NumCast>::from(wrapped)",
+    ("wrap_clamps_removed", "C16", "wrap_coord_box_lattice_1d", "src/topology/spaces/toroidal.rs",
+     "        let wrapped = if wrapped >= period { 0.0 } else { wrapped };\n        let out = <T as NumCast>::from(wrapped)?;\n        // Narrowing to `T` (e.g. `f32`) can round up onto `period` again.\n        if out.to_f64().is_some_and(|o| o >= period) {\n            return Some(T::zero());\n        }\n        Some(out)",
      "        <T as NumCast>::from(wrapped)"),
-    ("model_clamp_removed", "C16", "model_canonicalize", "src/topology/traits/global_topology_model.rs",
-     "            let wrapped = if wrapped >= period { 0.0 } else { wrapped };\n", ""),
+    ("wrap_f32_clamp_removed", "C16", "wrap_coord_lattice_1d_f32", "src/topology/spaces/toroidal.rs",
+     "        if out.to_f64().is_some_and(|o| o >= period) {\n            return Some(T::zero());\n        }\n",
+     ""),
+    ("model_clamps_removed", "C16", "model_canonicalize_box", "src/topology/traits/global_topology_model.rs",
+     "            if coord_ref.to_f64().is_some_and(|c| c >= period) {\n                *coord_ref = T::zero();\n            }\n",
+     "", "quick", [("src/topology/traits/global_topology_model.rs", "            let wrapped = if wrapped >= period { 0.0 } else { wrapped };\n", "")]),
     ("volume3d_wrong_divisor", "C18", "volume_3d_g1", "src/geometry/util/measures.rs",
      "let volume = Float::abs(triple_product) / six;", "let volume = Float::abs(triple_product) / (six + six);"),
     ("volume2d_sign_slip", "C18", "volume_2d_g2", "src/geometry/util/measures.rs",
@@ -41,8 +45,9 @@ MUTANTS = [
     ("hilbert_bits_32_accepted", "C19", "hilbert_quantize_range", "src/core/util/hilbert.rs",
      "pub fn hilbert_quantize<T: CoordinateScalar, const D: usize>(\n    coords: &[T; D],\n    bounds: (T, T),\n    bits: u32,\n) -> Result<[u32; D], HilbertError> {\n    if bits == 0 || bits > 31 {",
      "pub fn hilbert_quantize<T: CoordinateScalar, const D: usize>(\n    coords: &[T; D],\n    bounds: (T, T),\n    bits: u32,\n) -> Result<[u32; D], HilbertError> {\n    if bits == 0 || bits > 32 {"),
-    ("parity_ignores_used", "C05", "permutation_parity_n3", "src/core/triangulation_data_structure.rs",
-     "if target_vertex == source_vertex && !used_target_indices[target_idx] {", "if target_vertex == source_vertex {"),
+    ("parity_counts_non_inversions", "C05", "permutation_parity_n3", "src/core/triangulation_data_structure.rs",
+     "                if target_positions[i] > target_positions[j] {\n                    is_odd = !is_odd;",
+     "                if target_positions[i] < target_positions[j] {\n                    is_odd = !is_odd;"),
     ("uuid_version_check_loosened", "C05", "vertex_is_valid", "src/core/util/uuid.rs",
      "if version != 4 {", "if version < 4 {"),
     ("facet_key_unsorted", "C05", "order_independent", "src/core/facet.rs",
@@ -51,9 +56,12 @@ MUTANTS = [
      "let cell_coord = (*coord / self.cell_size).floor();", "let cell_coord = (*coord / self.cell_size).round() * (T::one() + T::one());"),
     ("epsilon_not_strict", "C09", "within_epsilon", "src/core/util/deduplication.rs",
      "    dist_sq < epsilon_sq\n}", "    dist_sq <= epsilon_sq\n}"),
-    ("morton_tiebreak_by_input_index", "C14", "order_independent_morton", "src/core/delaunay_triangulation.rs",
+    ("morton_tiebreak_by_input_index", "C14", "morton_cluster_n3_s12", "src/core/delaunay_triangulation.rs",
      "        a_code\n            .cmp(b_code)\n            .then_with(|| a_vertex.partial_cmp(b_vertex).unwrap_or(Ordering::Equal))\n            .then_with(|| a_idx.cmp(b_idx))",
-     "        a_code\n            .cmp(b_code)\n            .then_with(|| a_idx.cmp(b_idx))"),
+     "        a_code\n            .cmp(b_code)\n            .then_with(|| a_idx.cmp(b_idx))", "thorough"),
+    ("f32_lift_in_f32_again", "C12", "fast_f32_large", "src/geometry/predicates.rs",
+     "            let squared_norm_f64 = squared_norm(&point_coords_f64);\n            matrix_set(&mut matrix, i, D, safe_scalar_to_f64(squared_norm_f64)?);",
+     "            let squared_norm_f64 = squared_norm(point_coords);\n            matrix_set(&mut matrix, i, D, safe_scalar_to_f64(squared_norm_f64)?);", "thorough"),
 ]
 
 
@@ -75,19 +83,27 @@ def prepare_copy(scratch: str):
 def main(only: str | None, tier: str, jobs: int) -> int:
     results = []
     try:
-        for name, prop, flt, file, old, new in MUTANTS:
+        for mutant in MUTANTS:
+            name, prop, flt, file, old, new = mutant[:6]
+            mtier = mutant[6] if len(mutant) > 6 else "quick"
+            more = mutant[7] if len(mutant) > 7 else []
             if only and only not in name and only != prop:
                 continue
             ctx = prepare_copy(SCRATCH)
-            p = os.path.join(ctx.repo, file)
-            src = open(p).read()
-            if src.count(old) != 1:
-                print(f"selftest {name}: pattern occurs {src.count(old)} times in {file} -- mutant not applicable")
+            ok = True
+            for (f2, o2, n2) in [(file, old, new)] + list(more):
+                p = os.path.join(ctx.repo, f2)
+                src = open(p).read()
+                if src.count(o2) != 1:
+                    print(f"selftest {name}: pattern occurs {src.count(o2)} times in {f2} -- mutant not applicable")
+                    ok = False
+                    break
+                open(p, "w").write(src.replace(o2, n2))
+            if not ok:
                 results.append((name, prop, "not-applicable"))
                 continue
-            open(p, "w").write(src.replace(old, new))
             t0 = time.time()
-            rc = vd.check_property(prop, tier, flt, jobs, ctx=ctx, write_evidence=False)
+            rc = vd.check_property(prop, mtier, flt, jobs, ctx=ctx, write_evidence=False)
             verdict = "caught" if rc == 1 else f"MISSED(rc={rc})"
             print(f"selftest {name} [{prop}]: {verdict} in {time.time() - t0:.0f}s")
             results.append((name, prop, verdict))
